@@ -1,0 +1,48 @@
+//! Verification hooks (feature `verif-hooks`): wrappers around private items for the
+//! external property-checking harness.  Adds code only; nothing here is used by the crate
+//! itself except where a `#[cfg(feature = "verif-hooks")]` block consults it.
+
+// ---- C15: relay dialing (`client::tls::dial_happy_eyeballs`) ----
+
+/// Wrapper for the happy-eyeballs dialer and an injectable TCP connector.
+#[cfg(not(wasm_browser))]
+pub mod dial {
+    use std::{cell::RefCell, future::Future, io, net::SocketAddr, pin::Pin, sync::Arc};
+
+    use iroh_dns::dns::DnsResolver;
+    use tokio::net::TcpStream;
+    use url::Url;
+
+    use crate::client::DialError;
+
+    /// A replacement for `TcpStream::connect`, consulted once per connection attempt.
+    pub type Connector = Arc<
+        dyn Fn(SocketAddr) -> Pin<Box<dyn Future<Output = io::Result<TcpStream>> + Send>>
+            + Send
+            + Sync,
+    >;
+
+    thread_local! {
+        static CONNECTOR: RefCell<Option<Connector>> = const { RefCell::new(None) };
+    }
+
+    /// Installs (or with `None` removes) the connector for dial attempts started on the
+    /// current thread.  Meant for current-thread runtimes.
+    pub fn set_connector(connector: Option<Connector>) {
+        CONNECTOR.with(|c| *c.borrow_mut() = connector);
+    }
+
+    /// The connector installed on the current thread, if any.
+    pub(crate) fn connector() -> Option<Connector> {
+        CONNECTOR.with(|c| c.borrow().clone())
+    }
+
+    /// Calls the private `dial_happy_eyeballs` unchanged.
+    pub async fn dial_happy_eyeballs(
+        dns_resolver: &DnsResolver,
+        url: &Url,
+        prefer_ipv6: bool,
+    ) -> Result<TcpStream, DialError> {
+        crate::client::verif_dial_happy_eyeballs(dns_resolver, url, prefer_ipv6).await
+    }
+}
